@@ -11,6 +11,8 @@ VAR_POOLS = {
     "fresh": {"S": "S", "A": "a#CNF#", "B": "C#CNF#1", "C": "b#CNF#"},      # look like the CNF helper variables
     "alg": {"S": "S", "A": "#STARTUNION#", "B": "S#SUBS#0", "C": "#STARTSTAR#"},
     "int": {"S": "S", "A": 10, "B": 11, "C": 12},      # disjoint from the int terminals 0,1,2
+    "subs_lo": {"S": "S", "A": "S#SUBS#0", "B": "S#SUBS#1", "C": "S#SUBS#2"},   # look like substitute's fresh variables
+    "subs_hi": {"S": "S", "A": "S#SUBS#3", "B": "S#SUBS#2", "C": "A#SUBS#1"},
 }
 TERM_POOLS = {
     "ab": {"a": "a", "b": "b", "c": "c"},
@@ -55,8 +57,9 @@ def project(g):
             "terms": sorted(tt(t) for t in g.terminals), "allv": sorted(allv), "prods": sorted(prods)}
 
 
-def make(prods, vpool="upper", tpool="ab", order=None):
-    """prods: list of [head, [body]] over abstract names S,A,B / a,b.  Returns (cfg, tagged start, tagged prods)."""
+def make(prods, vpool="upper", tpool="ab", order=None, declare=False):
+    """prods: list of [head, [body]] over abstract names S,A,B / a,b.  Returns (cfg, tagged start, tagged prods).
+    declare=True passes the whole variable and terminal pools to the constructor (declared but possibly unused symbols)."""
     vm, tm = VAR_POOLS[vpool], TERM_POOLS[tpool]
     plist = []
     tagged = []
@@ -66,7 +69,11 @@ def make(prods, vpool="upper", tpool="ab", order=None):
         tagged.append([vt(vm[h]), [vt(vm[x]) if x in vm else tt(tm[x]) for x in b]])
     if order:
         plist = [plist[i] for i in order]
-    g = CFG(start_symbol=Variable(vm["S"]), productions=set(plist) if order is None else plist)
+    if declare:
+        g = CFG(variables={Variable(v) for v in vm.values()}, terminals={Terminal(t) for t in tm.values()},
+                start_symbol=Variable(vm["S"]), productions=set(plist))
+    else:
+        g = CFG(start_symbol=Variable(vm["S"]), productions=set(plist) if order is None else plist)
     return g, vt(vm["S"]), tagged
 
 
